@@ -1,0 +1,77 @@
+//go:build verif
+
+// Contracts for the point decoders of this curve (comment-only; installed by /verif/gcv gen-contracts).
+// Layer "ring fp.Element": coordinates are abstract field elements; their byte decoders (SetBytesCanonical, proved under
+// C08 for the base field) are opaque at this layer and only their error results are used. The clauses are
+// acceptance-implies-check clauses: a nil error is returned only if every check the format prescribes was made,
+// on the values that end up in the point.
+
+package bls24317
+
+//@ func isZeroed
+//@ loop 0
+//@ + invariant[prefix] -1 <= rangeindex && rangeindex < len(buf) && firstByte == 0 && forall(j, 0, rangeindex+1, buf[j] == 0)
+//@ ensures[value] result == (firstByte == 0 && forall(j, 0, len(buf), buf[j] == 0))
+//@ modifies nothing
+//@ end
+
+//@ func G1Affine.IsInSubGroup
+//@ layer ring fp.Element
+//@ assumed the subgroup test is a pure predicate of the point (its exactness is number theory: not proved); membership implies being on the curve
+//@ ensures[value] result == ufbool_insubgroup(p.X, p.Y)
+//@ modifies nothing
+//@ end
+
+//@ func G1Affine.setBytes
+//@ layer ring fp.Element
+//@ option nomerge
+//@ ghost canonX = false
+//@ ghost canonY = false
+//@ ghost insub = false
+//@ ghost oncurve = false
+//@ ghost zeroed = false
+//@ ghost md = 0
+//@ cut after def mData #1
+//@ + ghost md = mData
+//@ cut after call isZeroed #1
+//@ + ghost zeroed = callresult
+//@ cut after call SetBytesCanonical #1
+//@ + ghost canonX = isnil(callresult)
+//@ cut after call SetBytesCanonical #2
+//@ + ghost canonY = isnil(callresult)
+//@ cut after call IsInSubGroup #1
+//@ + ghost insub = callresult
+//@ cut after call IsOnCurve #1
+//@ + ghost oncurve = callresult
+//@ ensures[short] len(buf) < SizeOfG1AffineCompressed ==> !isnil(result1) && result0 == 0
+//@ ensures[reject-count] !isnil(result1) ==> result0 == 0
+//@ ensures[infinity] isnil(result1) && md == mCompressedInfinity ==> zeroed && iszero(p.X) && iszero(p.Y) && result0 == SizeOfG1AffineCompressed
+//@ ensures[valid-mask] isnil(result1) ==> md == mUncompressed || md == mUncompressedInfinity || md == mCompressedSmallest || md == mCompressedLargest || md == mCompressedInfinity
+//@ ensures[short-raw] (md == mUncompressed || md == mUncompressedInfinity) && len(buf) < SizeOfG1AffineUncompressed ==> !isnil(result1) && result0 == 0
+//@ ensures[infinity-raw] isnil(result1) && md == mUncompressedInfinity ==> zeroed && iszero(p.X) && iszero(p.Y) && result0 == SizeOfG1AffineUncompressed
+//@ ensures[raw-canonical] isnil(result1) && md == mUncompressed ==> canonX && canonY && result0 == SizeOfG1AffineUncompressed
+//@ ensures[raw-on-curve] isnil(result1) && md == mUncompressed ==> (subGroupCheck && insub) || (!subGroupCheck && oncurve)
+//@ ensures[compressed-canonical] isnil(result1) && (md == mCompressedSmallest || md == mCompressedLargest) ==> canonX && result0 == SizeOfG1AffineCompressed
+//@ ensures[compressed-root] isnil(result1) && (md == mCompressedSmallest || md == mCompressedLargest) ==> hasroot(p.X*p.X*p.X + bCurveCoeff) && (p.Y == sqrt(p.X*p.X*p.X + bCurveCoeff) || p.Y == -sqrt(p.X*p.X*p.X + bCurveCoeff))
+//@ ensures[compressed-sign] isnil(result1) && (md == mCompressedSmallest || md == mCompressedLargest) && !iszero(p.Y) ==> (md == mCompressedLargest) == ((p.Y == sqrt(p.X*p.X*p.X + bCurveCoeff)) == lexlargest(sqrt(p.X*p.X*p.X + bCurveCoeff)))
+//@ ensures[compressed-subgroup] isnil(result1) && (md == mCompressedSmallest || md == mCompressedLargest) && subGroupCheck ==> insub
+//@ modifies p
+//@ end
+
+//@ func G1Affine.unsafeSetCompressedBytes
+//@ layer ring fp.Element
+//@ option nomerge
+//@ ghost canonX = false
+//@ ghost zeroed = false
+//@ ghost md = 0
+//@ cut after def mData #1
+//@ + ghost md = mData
+//@ cut after call isZeroed #1
+//@ + ghost zeroed = callresult
+//@ cut after call SetBytesCanonical #1
+//@ + ghost canonX = isnil(callresult)
+//@ requires len(buf) >= SizeOfG1AffineCompressed
+//@ ensures[infinity] isnil(err) && md == mCompressedInfinity ==> isInfinity && zeroed && iszero(p.X) && iszero(p.Y)
+//@ ensures[canonical] isnil(err) && md != mCompressedInfinity ==> !isInfinity && canonX
+//@ modifies p
+//@ end
